@@ -71,7 +71,10 @@ def c06_case(draw):
                                cones=cones))
     c['fam'] = fam
     if detmodel.model_layer(c) == 'exp':
-        c['vtypes'] = 'C' * c['n']      # integers + exponential cones would need ECOS_BB, which is not an exact solver
+        # integers + exponential cones would need ECOS_BB, which is not an exact solver; a binary declared without bounds is
+        # bounded by its type, so it keeps [0, 1] when it becomes continuous (the model stays box-bounded)
+        c['bounds'] = [['box', 0.0, 1.0] if t == 'B' and b[0] == 'free' else b for t, b in zip(c['vtypes'], c['bounds'])]
+        c['vtypes'] = 'C' * c['n']
     if not c['obj'].get('atom') and draw(st.integers(0, 3)) > 0:
         aim_objective(c, draw(st.integers(0, 7)))
     return c
